@@ -20,8 +20,8 @@ def c01_jobs(tier):
           job('types-float',    'c01tf', 'plain', threads=1, shards=2 if q else 4, timeout=7200)]
     if not q:
         # 4 threads: the parallel code paths (level-scheduled ILU solves, parallel Gauss-Seidel, reductions) under the same oracle.  libgomp with the passive wait
-        # policy is slow on these small systems (measured 25 s per case on the shared machine), hence every 11th case only.
-        js.append(job('truthful-plain-t4', 'c01', 'plain', threads=4, shards=4, timeout=14400, args=['--sub', 'truthful', '--stride=11']))
+        # policy is slow on these small systems (measured 25 s per case on the shared machine), hence every 23rd case only.
+        js.append(job('truthful-plain-t4', 'c01', 'plain', threads=4, shards=4, timeout=14400, args=['--sub', 'truthful', '--stride=23']))
     return js
 
 # Oracle notes (rule 4 of the harness guide; details next to vf::check_truthful in include/vf/krylov.hpp):
